@@ -310,6 +310,17 @@ Proof.
   intros E. apply Nat.eqb_eq in E. exact E.
 Qed.
 
+(* ---------------------------------------------------------------- immutability *)
+Lemma run_stores_fields l : forall o,
+  forallb (fun s => post_construction (fst (fst s))) l = true ->
+  forall g, i_fields (run_stores l o) g = i_fields o g.
+Proof.
+  induction l as [|[[k f] v] tl IH]; intros o H g; cbn [run_stores fold_left]; [reflexivity|].
+  cbn [forallb fst snd] in H. apply andb_true_iff in H. destruct H as [Hk Ht].
+  fold (run_stores tl (store k f v o)). rewrite (IH _ Ht g).
+  destruct k; cbn in Hk; try discriminate; reflexivity.
+Qed.
+
 (* ---------------------------------------------------------------- eq / hash term tables *)
 Lemma cls_eq_refl c a : cls_eq c a a = true.
 Proof. unfold cls_eq. apply forallb_forall. intros t _. apply Nat.eqb_refl. Qed.
